@@ -173,6 +173,7 @@ def finish(mod, modname, pid, tier, seed, repo, t0, results, skipped, heavy, n_j
     notes = []
     # ---------------- cross-check of the encoding against the unpatched float64 package
     validated, mism = 0, []
+    co_hits = []
     srv = None
     try:
         if xjobs or violations or canaries:
@@ -184,6 +185,10 @@ def finish(mod, modname, pid, tier, seed, repo, t0, results, skipped, heavy, n_j
             if ans["exception"]:
                 mism.append((r["key"], "exception in concrete run: " + str(ans["exception"]) + " " + str(ans.get("message"))))
                 continue
+            # claims that only exist in the float64 world (e.g. the dtype of a returned table): evaluated on the cross-check vectors
+            for c in (ans.get("failed") or []):
+                if c.split(":")[0] in getattr(mod, "CONCRETE_ONLY", ()) and ans.get("assumptions_ok", True):
+                    co_hits.append((dict(r, harness_error="claim exists only in the float64 world"), vals, c))
             bad = compare_outputs(x["predicted"]["outputs"], ans["outputs"], tol=getattr(mod, "XCHECK_TOL", 1e-7),
                                   ignore=getattr(mod, "XCHECK_IGNORE", ()))
             if bad:
@@ -224,6 +229,36 @@ def finish(mod, modname, pid, tier, seed, repo, t0, results, skipped, heavy, n_j
                 if ans.get("assumptions_ok", True) and bad:
                     fallback_hits.append((r, vals, bad[0]))
                     break
+        # claims that exist only in the float64 world are evaluated for EVERY task on its first test vector (the cross-check above
+        # only covers tasks whose path could be predicted for a vector)
+        if getattr(mod, "CONCRETE_ONLY", ()):
+            seen_keys = {h[0].get("key") for h in co_hits}
+            t_co = time.time()
+            co_times = []
+            for r in sorted(results, key=lambda r: r.get("wall_s", 0))[: getattr(mod, "CONCRETE_ONLY_TASKS", 300)]:
+                if r.get("harness_error") or r.get("key") in seen_keys:
+                    continue
+                if time.time() - t_co > getattr(mod, "CONCRETE_ONLY_WALL_S", 45):
+                    break             # cheapest tasks first, within a wall allowance (reported in the evidence as concrete_only_tasks)
+                try:
+                    vecs = list(mod.test_vectors(r["params"]))[:1]
+                except Exception:  # noqa: BLE001
+                    vecs = []
+                for vec in vecs or [{}]:
+                    vals = common._ser_model(vec)
+                    if srv is None:
+                        srv = common.ConcreteServer(heavy=heavy, repo=repo)
+                    t_job = time.time()
+                    ans = srv.ask({"module": modname, "params": r["params"], "values": vals, "limit_s": 8})
+                    co_times.append((round(time.time() - t_job, 1), r.get("key")))
+                    if ans.get("exception") or not ans.get("assumptions_ok", True):
+                        continue
+                    for c in (ans.get("failed") or []):
+                        if c.split(":")[0] in mod.CONCRETE_ONLY:
+                            co_hits.append((dict(r, harness_error="claim exists only in the float64 world"), vals, c))
+        if getattr(mod, "CONCRETE_ONLY", ()):
+            log(f"[{pid}] float64-only claims evaluated on {len(co_times)} tasks in {time.time() - t_co:.0f}s; slowest: {sorted(co_times, reverse=True)[:3]}")
+        fallback_hits += co_hits
         fb_done = set()
         for r, vals, claim in fallback_hits:
             sig = f"{pid}/concrete-fallback/{claim.split(':')[0]}"
